@@ -59,9 +59,19 @@ RndView(a) == IF a.t = "f" THEN RoundingView(AsF(a)) ELSE <<a.n, a.d>>
 (* Everywhere below x and y stand for Promote(a) and Promote(b): the operators with suffix P   *)
 (* take them as arguments so that a model can compute the conversion of an operand once.       *)
 
-(* apply F to the promoted operands; overflow of a promotion is float_overflow *)
-Promoted2(x, y, F(_, _)) ==
-  IF x.k = "inf" \/ y.k = "inf" THEN Err("float_overflow") ELSE FRes(F(x, y))
+(* + - * : exact on integers and rationals (the result is an integer only when both operands are; a rational
+   result is not reduced here: rationals are compared by value); as soon as one operand is a float both are
+   promoted and F is applied; overflow of a promotion is float_overflow *)
+ExactArith(op, a, b) ==
+  LET n == CASE op = "+" -> Add(Mul(a.n, b.d), Mul(b.n, a.d))
+             [] op = "-" -> Sub(Mul(a.n, b.d), Mul(b.n, a.d))
+             [] op = "*" -> Mul(a.n, b.n)
+      d == Mul(a.d, b.d)
+  IN IF a.t = "i" /\ b.t = "i" THEN Val(NI(n)) ELSE Val(NR(n, d))
+
+Promoted2(op, a, b, x, y, F(_, _)) ==
+  IF a.t # "f" /\ b.t # "f" THEN ExactArith(op, a, b)
+  ELSE IF x.k = "inf" \/ y.k = "inf" THEN Err("float_overflow") ELSE FRes(F(x, y))
 
 FAddOp(x, y) == FAdd(x, y)
 FSubOp(x, y) == FSub(x, y)
@@ -133,11 +143,11 @@ MinMax(op, a, b, x, y) ==
        ELSE IF (op = "max") = (c > 0) THEN Val(a) ELSE Val(b)
 
 EvalBinP(op, a, b, x, y) ==
-  CASE op = "+" -> Promoted2(x, y, FAddOp)
-    [] op = "-" -> Promoted2(x, y, FSubOp)
-    [] op = "*" -> Promoted2(x, y, FMulOp)
+  CASE op = "+" -> Promoted2(op, a, b, x, y, FAddOp)
+    [] op = "-" -> Promoted2(op, a, b, x, y, FSubOp)
+    [] op = "*" -> Promoted2(op, a, b, x, y, FMulOp)
     [] op = "/" -> \* a zero divisor - also one that is zero only after its conversion to double - is the ISO zero_divisor
-                   \* (IEEE division-by-zero exception; 0.0/0.0 included: ISO 9.3.1.3 "Y is zero")
+                   \* (IEEE division-by-zero exception; 0.0/0.0 included: ISO '/'/2 raises zero_divisor whenever the divisor is zero)
          IF NIsZero(b) THEN Err("zero_divisor")
          ELSE IF x.k = "inf" \/ y.k = "inf" THEN Err("float_overflow")
          ELSE IF IsZero(y.m) THEN Err("zero_divisor")
